@@ -31,13 +31,16 @@ Judge(e) ==
       badpat == {i \in 1..n : e.exact[i] = 1 /\ e.pat[i] # want}
       badend == {i \in 1..n : e.exact[i] = 1 /\ e.perr[i] > TolEnd}
       badgap == {i \in 1..n : owned /\ e.gap[i] > TolGap}
+      \* each piece clipped twice more (children of its child, and theirs): still nothing lost (a piece moved onto the
+      \* top / right edge of its child by snapping would belong to a neighbour that never saw it)
+      badgap2 == {i \in 1..n : owned /\ e.gap[i] <= TolGap /\ e.gap2[i] > 2 * TolGap}
       badstray == {i \in 1..n : e.stray[i] > TolEnd \/ e.align[i] # 1}
       C(name, T) == IF T = {} THEN "" ELSE name \o ":" \o ToString(e.var[SetMin(T)]) \o "|"
       say(ok, why) == IF ok THEN TRUE ELSE (PrintT(<<"BAD", l, why>>) /\ FALSE)
-  IN /\ say(n > 0 /\ Len(e.exact) = n /\ Len(e.pat) = n /\ Len(e.perr) = n /\ Len(e.gap) = n /\ Len(e.stray) = n
+  IN /\ say(n > 0 /\ Len(e.exact) = n /\ Len(e.pat) = n /\ Len(e.perr) = n /\ Len(e.gap) = n /\ Len(e.gap2) = n /\ Len(e.stray) = n
             /\ Len(e.align) = n /\ P # Q, "machinery:clip-lengths")
-     /\ say(badpat \cup badend \cup badgap \cup badstray = {},
-            C("piece-lost", badgap) \o C("children-differ", badpat \ badgap) \o C("end-point", badend) \o C("stray-piece", badstray))
+     /\ say(badpat \cup badend \cup badgap \cup badgap2 \cup badstray = {},
+            C("piece-lost", badgap) \o C("piece-lost-further-down", badgap2) \o C("children-differ", badpat \ badgap) \o C("end-point", badend) \o C("stray-piece", badstray))
 
 Next == /\ l <= Len(Trace) /\ l' = l + 1 /\ (IF Judge(Trace[l]) THEN TRUE ELSE TRUE)
 Spec == Init /\ [][Next]_l
